@@ -1,8 +1,411 @@
 import GB.Base.Proto
+import GB.C08.Spec
+/-
+  C08 — driver: judges one case line of the `c08` area.
+
+  Byte strings on the line are *compact*: `x` + segments joined by `.`; a segment is plain hex or
+  `<hh>*<n>` (n copies of byte hh), so that 4 MiB / 8 MiB payloads stay short.  Lists are `,`-joined, `-` = empty.
+
+    esc  <cb>                                     => <cb escaped> <ok:<cb>|err>
+         url.PathEscape(s) and url.PathUnescape of it           (exhaustive over the 256 single bytes every run)
+    unesc <cb>                                    => ok:<cb> | err
+         url.PathUnescape(s) against Spec.pctDecode              (ties the *specification's* decoder to Go)
+    trl <code> <cb msg> <md>                      => <cb wire>
+         lpmTrailer(trailerWithStatus(md, status))                (function level; lines compared as a multiset)
+    http <h1|h2> k=<uu|cs|ss|bd> cd=<raw|empty> rt=<ok|code:cb> fr=<frames> tl=<cb> ck=<n/n/..> rs=<cbs> fs=<code>:<cb> tm=<md> ea=<-|n>
+                                                  => st=<n> rv=<recvs> tg=<cbs> te=<eof|open|none> sd=<cbs> sf=<n> tr=<md> oc=<code>:<cb> body=<cb> gd=<...>
+    ws   k=.. cd=.. rt=.. hd=<ok|bad>:<cb> ms=<cbs raw websocket messages> rs= fs= tm= ea=
+                                                  => up=<n> ws=<cbs> cl=<n|none> rv= tg= te= sd= sf= tr= oc=<code:cb|->
+  rv = results of the Recv calls on the bridge's ServerStream, tg = messages the target received, te = target stream
+  state, sd = messages the ServerStream accepted (Send = nil), tr = metadata given to SetTrailer, oc = what
+  RouteGRPC / Forward returned (the call's outcome), all observed by wrappers inside the harness.
+  frames: `<flag hh>:<declared length|=>:<cb payload>`; recvs: `m:<cb>` | `eof` | `e:<grpc code>`; md: `<cb key>:<cb value>`.
+
+  Verdicts: VIOL = the observed behaviour breaks the property text (lossy / reordered / truncated request
+  messages, oversize frame not rejected, status ≠ 200, response not `data* trailer`, trailer ≠ outcome);
+  DIFF = the observation differs from the model but none of the above.
+-/
 namespace GB.C08
 open GB GB.Proto
 
-/-- stub: replaced when the C08 slice is built -/
-def handle : Handler := fun _ _ => "BAD c08 unimplemented"
+/-! tail-recursive helpers (payloads can be 8 MiB long) -/
+
+def beqB : Bytes → Bytes → Bool
+  | [], [] => true
+  | a :: as, b :: bs => if a = b then beqB as bs else false
+  | _, _ => false
+
+def beqBs : List Bytes → List Bytes → Bool
+  | [], [] => true
+  | a :: as, b :: bs => if beqB a b then beqBs as bs else false
+  | _, _ => false
+
+def hexTR : List Char → Bytes → Option Bytes
+  | [], acc => some acc.reverse
+  | [_], _ => none
+  | a :: b :: rest, acc =>
+    match hexDigitVal a, hexDigitVal b with
+    | some x, some y => hexTR rest (UInt8.ofNat (x * 16 + y) :: acc)
+    | _, _ => none
+
+def parseSeg (s : String) : Option Bytes :=
+  match s.splitOn "*" with
+  | [h] => hexTR h.toList []
+  | [h, n] =>
+    match hexTR h.toList [], n.toNat? with
+    | some [b], some k => some (List.replicate k b)
+    | _, _ => none
+  | _ => none
+
+/-- compact bytes -/
+def parseCB (s : String) : Option Bytes :=
+  match s.toList with
+  | 'x' :: rest =>
+    ((String.ofList rest).splitOn ".").foldl
+      (fun acc seg => match acc, parseSeg seg with
+        | some a, some b => some (a ++ b)
+        | _, _ => none) (some [])
+  | _ => none
+
+def parseList {α} (f : String → Option α) (s : String) : Option (List α) :=
+  if s = "-" then some [] else mapOpt f (s.splitOn ",")
+
+def kv? (key : String) (toks : List String) : Option String :=
+  match toks.find? (fun t => t.startsWith (key ++ "=")) with
+  | some t => some ((t.drop (key.length + 1)).toString)
+  | none => none
+
+structure FrameD where
+  flag : UInt8
+  decl : Option Nat
+  payload : Bytes
+
+def FrameD.len (f : FrameD) : Nat := match f.decl with | some n => n | none => f.payload.length
+
+/-- what the client puts on the wire for this frame description (the harness encodes the same way in Go) -/
+def FrameD.enc (f : FrameD) : Bytes := f.flag :: (putBe32 f.len ++ f.payload)
+
+def parseFrameD (s : String) : Option FrameD :=
+  match s.splitOn ":" with
+  | [fl, d, p] =>
+    match hexTR fl.toList [], parseCB p with
+    | some [f], some pl =>
+      if d = "=" then some ⟨f, none, pl⟩
+      else match d.toNat? with | some n => some ⟨f, some n, pl⟩ | none => none
+    | _, _ => none
+  | _ => none
+
+/-- observed Recv result -/
+inductive ORes where
+  | eof | msg (m : Bytes) | err (code : Nat)
+
+def parseORes (s : String) : Option ORes :=
+  if s = "eof" then some .eof
+  else match s.splitOn ":" with
+    | ["m", p] => (parseCB p).map .msg
+    | ["e", c] => c.toNat?.map .err
+    | _ => none
+
+def oresEq : ORes → RecvRes → Bool
+  | .eof, .eof => true
+  | .msg a, .msg b => beqB a b
+  | .err c, .err e => c == e.code
+  | _, _ => false
+
+def oresListEq : List ORes → List RecvRes → Bool
+  | [], [] => true
+  | a :: as, b :: bs => if oresEq a b then oresListEq as bs else false
+  | _, _ => false
+
+def oresMsgs : List ORes → List Bytes
+  | [] => []
+  | .msg m :: r => m :: oresMsgs r
+  | _ :: r => oresMsgs r
+
+def showRes : RecvRes → String
+  | .eof => "eof"
+  | .msg m => s!"m[{m.length}]"
+  | .err e => s!"e:{e.code}"
+
+def showResList (l : List RecvRes) : String := ",".intercalate (l.map showRes)
+
+def parseCodeMsg (s : String) : Option (Nat × Bytes) :=
+  match s.splitOn ":" with
+  | [c, m] => match c.toNat?, parseCB m with | some n, some b => some (n, b) | _, _ => none
+  | _ => none
+
+/-- expected outcome of a failed routing step: `code:msg` scripted status, `plain:msg` a non-status error
+    (status.Convert ⇒ Unknown), `real` the real ServiceRouter on an unknown service (Unimplemented, text not compared) -/
+def routeOutcomeOK (rt : String) (oc : Nat) (om : Bytes) : Bool :=
+  if rt = "real" then oc == 12
+  else match rt.splitOn ":" with
+    | ["plain", m] => (match parseCB m with | some b => oc == 2 && beqB om b | none => false)
+    | [c, m] => (match c.toNat?, parseCB m with | some n, some b => oc == n && beqB om b | _, _ => false)
+    | _ => false
+
+def parseKV (s : String) : Option (Bytes × Bytes) :=
+  match s.splitOn ":" with
+  | [k, v] => match parseCB k, parseCB v with | some a, some b => some (a, b) | _, _ => none
+  | _ => none
+
+/-- a[i] = b[i] wherever both exist -/
+def agreeB : List Bytes → List Bytes → Bool
+  | a :: as, b :: bs => if beqB a b then agreeB as bs else false
+  | _, _ => true
+
+def isPrefixBs : List Bytes → List Bytes → Bool
+  | [], _ => true
+  | a :: as, b :: bs => if beqB a b then isPrefixBs as bs else false
+  | _ :: _, [] => false
+
+/-- payloads of the maximal well-formed prefix: flag 0, honest length, within the limit (if any) -/
+def wfPrefix (lim : Option Nat) : List FrameD → List Bytes
+  | [] => []
+  | f :: fs =>
+    if f.flag == 0 && f.decl.isNone && (match lim with | some L => decide (f.payload.length ≤ L) | none => true)
+    then f.payload :: wfPrefix lim fs else []
+
+def lexLt : Bytes → Bytes → Bool
+  | [], [] => false
+  | [], _ :: _ => true
+  | _ :: _, [] => false
+  | a :: as, b :: bs => if a < b then true else if b < a then false else lexLt as bs
+
+def insertSorted (x : Bytes) : List Bytes → List Bytes
+  | [] => [x]
+  | y :: ys => if lexLt y x then y :: insertSorted x ys else x :: y :: ys
+
+def sortB (l : List Bytes) : List Bytes := l.foldl (fun acc x => insertSorted x acc) []
+
+/-- every pair the forwarder handed to SetTrailer is one the target scripted -/
+def subMD (tr tm : MD) : Bool := tr.all (fun kv => tm.any (fun q => beqB q.1 kv.1 && beqB q.2 kv.2))
+
+def mdLines (md : MD) : List Bytes := sortB (md.map trailerLine)
+
+/-- request-side judgement shared by both transports.
+    `P` well-formed prefix payloads, `nextOversize` = the frame after the prefix declares more than the limit. -/
+def judgeReq (P : List Bytes) (nextOversize : Bool) (complete : Bool) (clientStreaming : Bool) (early : Bool)
+    (rv : List ORes) (tg : List Bytes) (te : String) (oc : Nat) : Option String :=
+  let rm := oresMsgs rv
+  if !agreeB rm P then some "VIOL request message altered/reordered at Recv"
+  else if !agreeB tg P then some "VIOL request message altered/reordered at target"
+  else if !isPrefixBs tg rm then some "VIOL target saw a message that was never received"
+  else if nextOversize && (match rv.drop P.length with | .msg _ :: _ => true | .eof :: _ => true | _ => false) then
+    some "VIOL oversize frame not rejected"
+  else if !early && (match rv.getLast? with | some (.err _) => oc == 0 | _ => false) then
+    some "VIOL receive error but call outcome OK"
+  else if complete && !early && clientStreaming &&
+      !(beqBs rm P && beqBs tg P && rv.length == P.length + 1 && (match rv.getLast? with | some .eof => true | _ => false) && te == "eof") then
+    some "VIOL well-formed request stream not delivered completely"
+  else if complete && !early && !clientStreaming && !P.isEmpty && !(beqBs rm (P.take 1) && beqBs tg (P.take 1)) then
+    some "VIOL unary request not delivered"
+  else none
+
+/-- response-side judgement on decoded frames -/
+def judgeResp (msgs : List Bytes) (block : Bytes) (sd rs : List Bytes) (serverStreaming : Bool)
+    (oc : Nat) (om : Bytes) : Option String :=
+  if !(match trailerOutcome block with | some (c, m) => c == oc && beqB m om | none => false) then some "VIOL trailer does not state the call outcome"
+  else if !beqBs msgs sd then some "VIOL response messages altered (≠ what the forwarder sent)"
+  else if !isPrefixBs msgs rs then some "VIOL response messages are not the target's"
+  else if oc == 0 && serverStreaming && !beqBs msgs rs then some "VIOL response messages lost"
+  else none
+
+def goDecodeSummary (msgs : List Bytes) (block : Bytes) : String :=
+  match parseTrailer block with
+  | none => "bad"
+  | some md =>
+    match mdGet md kStatus, mdGet md kMessage with
+    | [s], [m] =>
+      match pctDecode m with
+      | some d => s!"ok:{msgs.length}:{toHex s}:{toHex d}"
+      | none => "bad"
+    | _, _ => "bad"
+
+/-- split the wire bytes the way the harness writes them into the pipe: chunk sizes cycle through `pat` -/
+def chunkBy (pat : List Nat) : Nat → Nat → Bytes → List Bytes
+  | 0, _, _ => []
+  | _, _, [] => []
+  | fuel + 1, i, s =>
+    let n := match pat[i % pat.length]? with | some k => (if k = 0 then 1 else k) | none => 1048576
+    s.take n :: chunkBy pat fuel (i + 1) (s.drop n)
+
+def parsePattern (s : String) : List Nat := (s.splitOn "/").filterMap String.toNat?
+
+def handleHTTP (i o : List String) : String :=
+  match kv? "k" i, kv? "rt" i, (kv? "fr" i).bind (parseList parseFrameD), (kv? "tl" i).bind parseCB,
+        (kv? "rs" i).bind (parseList parseCB), (kv? "fs" i).bind parseCodeMsg,
+        (kv? "tm" i).bind (parseList parseKV), kv? "ea" i with
+  | some k, some rt, some frs, some tl, some rs, some _fs, some tm, some ea =>
+    if o.head? == some "HANG" then "VIOL handler did not finish" else
+    if o.head? == some "PANIC" then "VIOL panic" else
+    match (kv? "st" o).bind String.toNat?, (kv? "rv" o).bind (parseList parseORes), (kv? "tg" o).bind (parseList parseCB),
+          kv? "te" o, (kv? "sd" o).bind (parseList parseCB), (kv? "oc" o).bind parseCodeMsg,
+          (kv? "body" o).bind parseCB, kv? "gd" o, (kv? "tr" o).bind (parseList parseKV) with
+    | some st, some rv, some tg, some te, some sd, some (oc, om), some body, some gd, some tr =>
+      let cs : Bool := k == "cs" || k == "bd"
+      let ss : Bool := k == "ss" || k == "bd"
+      let early : Bool := ea != "-"
+      let wire := frs.flatMap FrameD.enc ++ tl
+      let P := wfPrefix (some maxMsg) frs
+      let nextOver := match frs.drop P.length with | f :: _ => decide (f.len > maxMsg) | [] => false
+      let complete : Bool := P.length == frs.length && tl.isEmpty
+      if st ≠ httpStatus then s!"VIOL http status {st}" else
+      match decodeBody body with
+      | none => "VIOL response body is not data* followed by exactly one trailer frame"
+      | some (msgs, block) =>
+        let routed : Bool := rt == "ok"
+        let reqV := if routed then judgeReq P nextOver complete cs early rv tg te oc else none
+        match reqV with
+        | some v => v
+        | none =>
+        match judgeResp msgs block sd rs ss oc om with
+        | some v => v
+        | none =>
+          -- model equality
+          let mrv := recvTrace rv.length wire
+          -- the same through the chunked-reader model, with the chunking the harness used (small bodies only)
+          let chunkOK : Bool := wire.length > 200000 ||
+            (match kv? "ck" i with
+             | some ck => decide (recvChunksTraceL maxMsg rv.length (chunkBy (parsePattern ck) (wire.length + 1) 0 wire) = mrv)
+             | none => false)
+          let rvOK : Bool := early || (oresListEq rv mrv && chunkOK)
+          let md := match parseTrailer block with | some m => m | none => []
+          let bodyOK : Bool := beqB body (respondHTTPWith sd md) &&
+            mdLines md == mdLines (trailerWithStatus tr oc om) && subMD tr tm
+          let ocOK : Bool := if routed then
+              (match rv.getLast? with | some (.err c) => early || oc == c | _ => true)
+            else routeOutcomeOK rt oc om && rv.isEmpty && tg.isEmpty && sd.isEmpty
+          let gdOK : Bool := gd == goDecodeSummary msgs block
+          if !rvOK then s!"DIFF model=rv:{showResList mrv}"
+          else if !bodyOK then "DIFF model=body"
+          else if !ocOK then "DIFF model=outcome"
+          else if !gdOK then s!"DIFF model=gd:{goDecodeSummary msgs block}"
+          else
+            let big : Bool := frs.any (fun f => f.payload.length ≥ 65536) || rs.any (fun m => m.length ≥ 65536)
+            let br := if !routed then "route-fail"
+              else match rv.getLast? with
+                | some (.err 8) => "oversize"
+                | some (.err _) => "recv-error"
+                | _ => if oc = 0 then "ok" else "status"
+            let nt := if frs.length + rs.length + om.length > 0 then " nt" else ""
+            s!"OK{nt} b=http-{br}{if big then "-big" else ""}"
+    | _, _, _, _, _, _, _, _, _ => "BAD c08 http output"
+  | _, _, _, _, _, _, _, _ => "BAD c08 http input"
+
+/-- the grpc-websockets client messages of the structured description: `d:<cb>` data, `f` finish, `r:<cb>` raw -/
+inductive WSItem where
+  | data (m : Bytes) | fin | raw (b : Bytes)
+
+def parseWSItem (s : String) : Option WSItem :=
+  if s = "f" then some .fin
+  else match s.splitOn ":" with
+    | ["d", p] => (parseCB p).map .data
+    | ["r", p] => (parseCB p).map .raw
+    | _ => none
+
+def WSItem.enc : WSItem → Bytes
+  | .data m => wsFrame m
+  | .fin => wsFinish
+  | .raw b => b
+
+/-- payloads of the leading data items (before the first finish/raw item) and whether a finish follows directly -/
+def wsPrefix : List WSItem → List Bytes × Bool
+  | .data m :: r => let p := wsPrefix r; (m :: p.1, p.2)
+  | .fin :: _ => ([], true)
+  | _ => ([], false)
+
+def handleWS (i o : List String) : String :=
+  match kv? "k" i, kv? "rt" i, kv? "hd" i, (kv? "ms" i).bind (parseList parseWSItem),
+        (kv? "rs" i).bind (parseList parseCB), (kv? "tm" i).bind (parseList parseKV), kv? "ea" i with
+  | some k, some rt, some hd, some items, some rs, some tm, some ea =>
+    if o.head? == some "HANG" then "VIOL handler did not finish" else
+    if o.head? == some "PANIC" then "VIOL panic" else
+    match (kv? "up" o).bind String.toNat?, (kv? "ws" o).bind (parseList parseCB), kv? "cl" o,
+          (kv? "rv" o).bind (parseList parseORes), (kv? "tg" o).bind (parseList parseCB),
+          kv? "te" o, (kv? "sd" o).bind (parseList parseCB), kv? "oc" o, (kv? "tr" o).bind (parseList parseKV) with
+    | some up, some wsm, some cl, some rv, some tg, some te, some sd, some ocs, some tr =>
+      let cs : Bool := k == "cs" || k == "bd"
+      let ss : Bool := k == "ss" || k == "bd"
+      let early : Bool := ea != "-"
+      let hdOK : Bool := hd.startsWith "ok:"
+      let hdBytes := match parseCB ((hd.drop 3).toString) with | some b => b | none => []
+      if up ≠ 101 then s!"VIOL websocket upgrade status {up}" else
+      match decodeWS wsm with
+      | none => "VIOL websocket response is not [header] data* followed by exactly one trailer message"
+      | some (hdr, msgs, block) =>
+        if cl ≠ "1000" then s!"VIOL websocket not closed normally after the trailer (close={cl})" else
+        -- a rejected header message never reaches the router/forwarder: the outcome is the bridge's own status
+        match (if ocs = "-" then trailerOutcome block else parseCodeMsg ocs) with
+        | none => if ocs = "-" then "VIOL trailer does not decode to a status" else "BAD c08 ws oc"
+        | some (oc, om) =>
+        let routed : Bool := hdOK && rt == "ok"
+        if !hdOK && te != "none" then "VIOL call forwarded to the target after its header message was rejected" else
+        let (P, finished) := wsPrefix items
+        let reqV := if routed then judgeReq P false finished cs early rv tg te oc else none
+        match reqV with
+        | some v => v
+        | none =>
+        match judgeResp msgs block sd rs ss oc om with
+        | some v => v
+        | none =>
+          let evs := wsEvents (fun _ => hdOK) {} (hdBytes :: items.map WSItem.enc)
+          let mrv := wsRecvTrace rv.length evs
+          let rvOK : Bool := early || oresListEq rv mrv
+          let md := match parseTrailer block with | some m => m | none => []
+          let hmd := match hdr with | some h => (match parseTrailer h with | some m => m | none => [([0], [])]) | none => []
+          let respOK : Bool := beqBs wsm (wsRespondWith hmd sd md) && (hdr.isSome == !sd.isEmpty) && hmd.isEmpty &&
+            mdLines md == mdLines (trailerWithStatus tr oc om) && subMD tr tm
+          let ocOK : Bool := if routed then
+              ocs != "-" && (match rv.getLast? with | some (.err c) => early || oc == c | _ => true)
+            else if !hdOK then oc == 3 && ocs == "-" && rv.isEmpty && tg.isEmpty && sd.isEmpty
+            else ocs != "-" && routeOutcomeOK rt oc om && rv.isEmpty && tg.isEmpty && sd.isEmpty
+          if !rvOK then s!"DIFF model=rv:{showResList mrv}"
+          else if !respOK then "DIFF model=ws-messages"
+          else if !ocOK then "DIFF model=outcome"
+          else
+            let big : Bool := items.any (fun it => (WSItem.enc it).length ≥ 65536) || rs.any (fun m => m.length ≥ 65536)
+            let br := if !hdOK then "bad-header" else if rt ≠ "ok" then "route-fail"
+              else match rv.getLast? with
+                | some (.err _) => "recv-error"
+                | _ => if oc = 0 then "ok" else "status"
+            let nt := if items.length + rs.length + om.length > 0 then " nt" else ""
+            s!"OK{nt} b=ws-{br}{if big then "-big" else ""}"
+    | _, _, _, _, _, _, _, _, _ => "BAD c08 ws output"
+  | _, _, _, _, _, _, _ => "BAD c08 ws input"
+
+def handle : Handler
+  | ["esc", hx], [esc, un] =>
+    match parseCB hx, parseCB esc with
+    | some s, some e =>
+      let m := pathEscape s
+      if pctDecode e ≠ some s then s!"VIOL escaped grpc-message does not decode to the message model={toHex m}"
+      else if e ≠ m then s!"DIFF model={toHex m}"
+      else if un ≠ "ok:" ++ toHex s then "DIFF model=unescape"
+      else s!"OK nt b=esc{if s.length = 1 then "-byte" else ""}"
+    | _, _ => "BAD c08 esc"
+  | ["unesc", hx], [out] =>
+    match parseCB hx with
+    | some s =>
+      let m := match pctDecode s with | some d => "ok:" ++ toHex d | none => "err"
+      if out ≠ m then s!"DIFF model={m}" else s!"OK nt b=unesc-{if m = "err" then "err" else "ok"}"
+    | none => "BAD c08 unesc"
+  | ["trl", code, msg, mds], [out] =>
+    match code.toNat?, parseCB msg, parseList parseKV mds, parseCB out with
+    | some c, some m, some md, some w =>
+      match takeFrame w with
+      | some (.trailer block, []) =>
+        if trailerOutcome block ≠ some (c, m) then "VIOL trailer does not state the status"
+        else
+          match parseTrailer block with
+          | some omd =>
+            if w ≠ lpmTrailer omd then "DIFF model=lpmTrailer"
+            else if mdLines omd ≠ mdLines (trailerWithStatus md c m) then "DIFF model=trailerWithStatus"
+            else "OK nt b=trl"
+          | none => "VIOL trailer block unparsable"
+      | _ => "VIOL not a single trailer frame"
+    | _, _, _, _ => "BAD c08 trl"
+  | "http" :: i, o => handleHTTP i o
+  | "ws" :: i, o => handleWS i o
+  | _, _ => "BAD c08 line"
 
 end GB.C08
